@@ -124,7 +124,7 @@ PY_LIMIT = 260        # python reference for every n up to here (0.7 ms per hash
 class C06(Check):
     pid = "C06"
     rule = ("tree: EVERY leaf count 1..260 (thorough 1..2100; three contents each up to 40) and 2^k-1, 2^k, 2^k+1, 2^k+2 "
-            "for k <= 13 with random 32-byte leaves; blockparts: random valid headers x two real coinbase transactions "
+            "for k <= 13 (thorough 15) with random 32-byte leaves; blockparts: random valid headers x two real coinbase transactions "
             "(v1 from block 202612, v2 from test_block_ser) x every tx count 0..70 and 2^k-2..2^k+1 (k <= 9, thorough 11), "
             "the two test-suite blocks split into parts (202612 with its 513 hashes, and nonce/timestamp mutations of it); "
             "non-trivial = distinct case line")
@@ -196,7 +196,7 @@ class C06(Check):
             if n <= 40:
                 add("tree " + hx(b"".join(self.leaves(rng, n, "counter"))), "tree-every-n-counter")
                 add("tree " + hx(b"".join(self.leaves(rng, n, "same"))), "tree-every-n-equal-leaves")
-        for k in range(1, (16 if thorough else 13) + 1):
+        for k in range(1, (15 if thorough else 13) + 1):
             for d in (-1, 0, 1, 2):
                 n = 2**k + d
                 if n >= 1:
